@@ -16,7 +16,8 @@ import io
 import msglib as M
 from txlib import compact_size, ref_wire
 
-NET = {"btc": BTC, "ltc": LTC}
+from pycoin.symbols.btg import network as BTG
+NET = {"btc": BTC, "ltc": LTC, "btg": BTG}
 
 MANIFEST = {
     "text": "Lean theorems over models of merkle/merkle_pair, of post_unpack_merkleblock/_recurse and of Block.parse/stream/hash: the "
@@ -135,6 +136,26 @@ def impl(op: str) -> str:
             total, hashes, flags, root = int(a[1]), parse_hashes(a[2]), unhx(a[3]), unhx(a[4])
             d = M.limited(BTC.message.parse, "merkleblock", merkleblock_bytes(total, hashes, flags, root))
             return "ok " + show_list(d["tx_hashes"], hx)
+        if k == "pmt_verify_after":
+            # in a FRESH process (forked from a zygote that only created the networks): another network parses a merkleblock
+            # of ITS layout first (Bitcoin Gold: 140-byte header + solution; Litecoin: the Bitcoin layout), then Bitcoin does
+            total, hashes, flags, root = int(a[2]), parse_hashes(a[3]), unhx(a[4]), unhx(a[5])
+            body = merkleblock_bytes(total, hashes, flags, root)
+            if a[1] in ("btg", "xtg"):
+                hdr = M.btg_header_bytes(2, b"\x11" * 32, root, 491407, 1700000000, 0x1D00FFFF, b"\x07" * 32, b"\x09" * 100)
+            else:
+                hdr = body[:80]
+            outs = M.zygote().run(["%s:parse:merkleblock:%s" % (a[1], (hdr + body[80:]).hex()), "btc:parse:merkleblock:" + body.hex()])
+            if outs == ["HANG"]:
+                return "err Hang"
+            second = outs[1]
+            if second.startswith("err:"):
+                return "err " + second[4:]
+            import re
+            m = re.search(r"\+?tx_hashes=\[([^\]]*)\]", second)
+            if not m:
+                return "err no-tx_hashes"
+            return "ok " + show_list([unhx(x[1:]) for x in m.group(1).split(",") if x], hx)
         if k == "block_rt":
             blk = M.limited(NET[a[1]].block.from_bin, bytes.fromhex(a[2]))
             return "ok %s %s %d" % (blk.as_bin().hex(), blk.id(), len(blk.txs))
@@ -272,6 +293,8 @@ def oracle(op: str, out: str):
             return "header does not round-trip as exactly 80 bytes"
         if bid != dsha(data[:80])[::-1].hex():
             return "block id is not the double-SHA256 of the 80-byte header"
+    if k == "pmt_verify_after" and len(a) > 6:
+        return oracle("pmt_verify " + " ".join(a[2:]), out)
     if k == "pmt_verify" and len(a) > 5:
         tag = a[5]
         if tag.startswith("honest:"):
@@ -501,6 +524,14 @@ def gen(ctx, emit):
         for ms in subsets:
             emit("pmt_build %s %s" % (show_list(txids, hx), "".join("1" if m else "0" for m in ms)))
             emit_proof_cases(emit, rng, txids, ms, corrupt=True, every_position=(n <= 9))
+    # ---- after ANOTHER network (own header layout: Bitcoin Gold; same layout: Litecoin) parsed a merkleblock in this process
+    for other in ("btg", "ltc", "btg"):
+        for n in (1, 2, 3, 5, 8):
+            txids = [rh() for _ in range(n)]
+            ms = [rng.random() < 0.5 for _ in range(n)]
+            flags, hashes, ids, _nb = ref_build(txids, ms)
+            emit("pmt_verify_after %s %d %s %s %s honest:%s" % (other, n, show_list(hashes, hx), hx(flags), hx(ref_root(txids)), show_list(ids, hx)),
+                 "after-another-network")
     # all subsets for n <= 6 (honest only; thorough: n <= 11)
     for n in range(1, ctx.n(7, 12)):
         txids = [rh() for _ in range(n)]
